@@ -47,7 +47,7 @@ Inductive site :=
 | S_type_int | S_type_expected | S_enum | S_not | S_oneOf_many (idx : list nat) | S_oneOf_none
 | S_anyOf | S_allOf | S_nullable | S_format (kind : string)
 | S_exMin | S_exMax | S_min | S_max | S_mult
-| S_minLen | S_maxLen | S_pattern
+| S_minLen | S_maxLen | S_pattern | S_badpattern
 | S_minItems | S_maxItems | S_unique
 | S_minProps | S_maxProps | S_unsupported (k : string) | S_required (k : string).
 
@@ -58,7 +58,7 @@ Definition field_of (s : site) : string :=
   | S_anyOf => "anyOf" | S_allOf => "allOf" | S_nullable => "nullable" | S_format _ => "format"
   | S_exMin => "exclusiveMinimum" | S_exMax => "exclusiveMaximum" | S_min => "minimum"
   | S_max => "maximum" | S_mult => "multipleOf" | S_minLen => "minLength" | S_maxLen => "maxLength"
-  | S_pattern => "pattern" | S_minItems => "minItems" | S_maxItems => "maxItems"
+  | S_pattern | S_badpattern => "pattern" | S_minItems => "minItems" | S_maxItems => "maxItems"
   | S_unique => "uniqueItems" | S_minProps => "minProperties" | S_maxProps => "maxProperties"
   | S_unsupported _ => "properties" | S_required _ => "required"
   end.
@@ -204,7 +204,8 @@ Section ORACLES.
       end;
       if String.eqb (c_pattern c) "" then COk
       else if negb (re_compiles (c_pattern c)) then
-             (if st_multi st then CPanic "pattern: nil RegexMatcher" else CReturn (EPlain PBadPattern))
+             (* the compile error is returned, or appended in multi-error mode (no match is attempted) *)
+             CFail (ESchema S_badpattern c [] JNull []) false
       else if re_match (c_pattern c) s then COk
       else CFail (ESchema S_pattern c [] v []) false;
       fmt_chk c "string" v ].
